@@ -217,10 +217,11 @@ def stage_checks(args):
     surv = [m for m in muts if m.get("tests") == "pass" and (not args.files or m["file"] in args.files.split(",")) and "caught_by" not in m]
 
     def run(m):
-        if "source" not in m:  # the committed file keeps descriptions only: regenerate the mutant from its site index
+        source = m.get("source")
+        if source is None:  # the committed file keeps descriptions only: regenerate the mutant from its site index
             tree = ast.parse(open(os.path.join(REPO, m["rel"])).read())
-            m = dict(m, source=ast.unparse(mutate(tree, m["index"])[1]))
-        d = scratch_with(m["rel"], m["source"])
+            source = ast.unparse(mutate(tree, m["index"])[1])
+        d = scratch_with(m["rel"], source)
         m["caught_by"], m["inconclusive"] = None, []
         try:
             for c in FILES[m["file"]][1]:
